@@ -476,6 +476,7 @@ let op_scanseq r = function
       let icalls = List.map (fun c -> match String.split_on_char '|' c with
         | [sn; fw; er] -> (sn, unhex fw, er) | _ -> failwith "call") (split_on ';' calls) in
       tag r (Printf.sprintf "calls=%d" (min 9 (List.length icalls)));
+      if List.exists (fun (_, _, er) -> er = "STUCK") icalls then flag r "prop:C03:no-progress";
       (* model *)
       (match M.scan_seq (nat_of_int 3000) (bytes_of_hex content) (fin_of final) with
        | M.Panic _ -> flag r "model:panic"; flag r "corr:panic"
@@ -745,6 +746,67 @@ let op_html r = function
     end
   | _ -> failwith "html: fields"
 
+(* ---------- op: guess (C18) ---------- *)
+let kv_list s = List.map (fun kv -> match String.split_on_char '=' kv with
+  | [k; v] -> (unhex k, unhex v) | _ -> failwith "kv") (split_on ';' s)
+
+let op_guess r = function
+  | [content; lgoroot; lgopaths; fs; expect; i_snap; i_goroot; i_gopaths; i_gomods; det] ->
+    if det <> "1" then flag r "prop:C06:guess-nondeterministic";
+    if starts_with i_snap "PANIC" then flag r "impl:panic"
+    else if i_snap = "nil" then flag r "driver:guess-no-snapshot"
+    else begin
+      let i_gs = goroutines_of (parse_sx i_snap) in
+      let fsl = List.map (fun (k, v) -> (bytes_of_string k, bytes_of_string v)) (kv_list fs) in
+      let gps = List.map bytes_of_hex (split_on ',' lgopaths) in
+      tag r (Printf.sprintf "gopaths=%d" (List.length gps)); tag r (Printf.sprintf "files=%d" (min 20 (List.length fsl)));
+      (* model: scan, then guess_paths on the same disk *)
+      (match M.scan_snapshot false (source_of content "-" "eof") with
+       | M.Ok { M.snap = Some gs } ->
+         let (roots, gs') = M.guess_paths fsl (bytes_of_hex lgoroot) gps gs in
+         if canon_gs gs' <> canon_gs i_gs then begin
+           flag r "corr:guess-snap";
+           (* first differing call, for the replay file *)
+           let calls l = List.concat_map (fun (g : M.goroutine) -> g.M.gSig.M.sStack.M.calls) l in
+           (try List.iter2 (fun (a : M.call) (b : M.call) ->
+              if r.detail = "" && sx_to_string (sx_of_call (mask_call a)) <> sx_to_string (sx_of_call (mask_call b)) then
+                r.detail <- Printf.sprintf "file %s: model (%s|%s|%s|%s) impl (%s|%s|%s|%s)" (string_of_bytes a.M.remoteSrcPath)
+                  (string_of_bytes a.M.localSrcPath) (string_of_bytes a.M.relSrcPath) (string_of_bytes a.M.cImportPath) (loc_to a.M.cLocation)
+                  (string_of_bytes b.M.localSrcPath) (string_of_bytes b.M.relSrcPath) (string_of_bytes b.M.cImportPath) (loc_to b.M.cLocation))
+              (calls gs') (calls i_gs) with Invalid_argument _ -> ())
+         end;
+         let srt l = List.sort compare (List.map (fun (k, v) -> (string_of_bytes k, string_of_bytes v)) l) in
+         if string_of_bytes roots.M.remote_goroot <> unhex i_goroot then flag r "corr:guess-goroot";
+         if srt roots.M.remote_gopaths <> List.sort compare (kv_list i_gopaths) then flag r "corr:guess-gopaths";
+         if srt roots.M.local_gomods <> List.sort compare (kv_list i_gomods) then flag r "corr:guess-gomods"
+       | _ -> flag r "corr:guess-snap");
+      (* ---- C18 oracle on the implementation's output, against the layout that generated the dump ---- *)
+      let calls = List.concat_map (fun (g : M.goroutine) -> g.M.gSig.M.sStack.M.calls) i_gs in
+      let exps = split_on ',' expect in
+      if List.length exps <> List.length calls then flag r "driver:guess-expect-length"
+      else List.iter2 (fun e (c : M.call) ->
+        let local = string_of_bytes c.M.localSrcPath and rel = string_of_bytes c.M.relSrcPath in
+        if local <> "" && not (is_suffix rel local) then flag r "prop:C18:local-does-not-end-with-rel";
+        if local = "" && rel <> "" then flag r "prop:C18:rel-without-local";
+        if e <> "?" then
+          (match String.split_on_char '|' e with
+           | [cls; el; er; ei] ->
+             if loc_to c.M.cLocation <> cls then flag r "prop:C18:location-class";
+             if local <> unhex el then flag r "prop:C18:local-path";
+             if rel <> unhex er then flag r "prop:C18:relative-path";
+             if string_of_bytes c.M.cImportPath <> unhex ei then flag r "prop:C18:import-path";
+             if cls <> "0" then tag r "resolved"
+           | _ -> failwith "expect")) exps calls;
+      (* each detected remote root is a prefix of a frame it explains *)
+      let files = List.map (fun (c : M.call) -> string_of_bytes c.M.remoteSrcPath) calls in
+      let explains root mids = List.exists (fun f -> List.exists (fun m -> is_prefix (root ^ m) f) mids) files in
+      let gr = unhex i_goroot in
+      if gr <> "" && not (explains gr ["/src/"]) then flag r "prop:C18:goroot-explains-nothing";
+      List.iter (fun (k, _) -> if not (explains k ["/src/"; "/pkg/mod/"]) then flag r "prop:C18:gopath-explains-nothing") (kv_list i_gopaths);
+      List.iter (fun (k, _) -> if not (explains k ["/"]) then flag r "prop:C18:gomod-explains-nothing") (kv_list i_gomods)
+    end
+  | _ -> failwith "guess: fields"
+
 (* ---------- main loop ---------- *)
 let () =
   let ops : (string, res -> string list -> unit) Hashtbl.t = Hashtbl.create 16 in
@@ -756,6 +818,7 @@ let () =
   Hashtbl.replace ops "names" op_names;
   Hashtbl.replace ops "pp" op_pp;
   Hashtbl.replace ops "html" op_html;
+  Hashtbl.replace ops "guess" op_guess;
   Hashtbl.replace ops "chunk" op_chunk;
   (try
     while true do
